@@ -27,6 +27,7 @@ structure DState where
   faults : List (String × Nat) := []
   swap : Swap := {}
   booted : Bool := false
+  saved : Option World := none     -- drybegin … dryend: the world to come back to
 
 def escrowSym (port chan : String) : Addr := strBytes ("escrow:" ++ port ++ "/" ++ chan)
 
@@ -522,6 +523,8 @@ def handle (st : DState) (line : String) : String × DState :=
        | .ok (o, evs, _) => ("res=ok ev=" ++ listOrDash evs ++ " st=" ++ stateStr o, { st with w := { st.w with orb := o } })
        | .err t => ("res=err ev=- st=" ++ stateStr st.w.orb ++ " tag=" ++ t, st)
        | .panic s => ("res=panic ev=- st=" ++ stateStr st.w.orb ++ " tag=" ++ s, st))
+  | ["drybegin"] => if st.saved.isSome then ("bad-op", st) else ("ok", { st with saved := some st.w })
+  | ["dryend"] => (match st.saved with | some w => ("ok", { st with w := w, saved := none }) | none => ("bad-op", st))
   | "msgdry" :: rest =>
     -- the message executed on a branch that is then discarded: the result is observed, the state is not kept
     (match parseMsg rest with
@@ -548,6 +551,30 @@ def handle (st : DState) (line : String) : String × DState :=
              | .panic e => ("res=panic dst=- bal=- tag=" ++ e, st))
           | _ => ("res=err:attrs dst=- bal=-", st))
      | _, _, _, _ => ("bad-op", st))
+  | ["dispatchh", a, d, m] =>
+    -- Dispatcher.DispatchPayload at component level: the payload as the codec alone decodes it
+    (match parseInt a, unhxS d, unhxB m with
+     | some amt, some denom, some memo =>
+       let stS := " st=" ++ stateStr st.w.orb
+       (match parseJsonWhole memo with
+        | none => ("res=err:decode hreq=- bal=-" ++ stS, st)
+        | some j =>
+          match decWrapper .bpsLast j with
+          | .err _ => ("res=err:decode hreq=- bal=-" ++ stS, st)
+          | .panic _ => ("res=panic hreq=- bal=-" ++ stS, st)
+          | .ok raw =>
+            match newTransferAttrs PROTOCOL_IBC "channel-0" denom amt with
+            | .ok t =>
+              let w1 := { st.w with bank := st.w.bank.mint st.cfg.orbAddr denom amt.toNat }
+              let wr := harnessWiring st.cfg st.swap
+              (match raw.validate >>= fun p => dispatchPayload wr noFaults w1.orb (ctxOf w1) t p with
+               | .ok (c, _, o') =>
+                 let w2 : World := { w1 with bank := c.bank, ext := c.ext, orb := o' }
+                 ("res=ok hreq=" ++ reqRecorded c.reqs ++ " bal=" ++ balDelta c.moves ++ " st=" ++ stateStr o', { st with w := w2 })
+               | .err e => ("res=err hreq=- bal=-" ++ stS ++ " tag=" ++ e, st)
+               | .panic e => ("res=panic hreq=- bal=-" ++ stS ++ " tag=" ++ e, st))
+            | _ => ("res=err:attrs hreq=- bal=-" ++ stS, st))
+     | _, _, _ => ("bad-op", st))
   | "msgh" :: rest =>
     (match parseMsg rest with
      | none => ("bad-op", st)
